@@ -13,11 +13,6 @@ TRUSTED_L3 = common.BASE_TRUSTED + [
     "the real binary is run on real directories under /verif/.cache/scratch; results are compared as sorted (path, mode, bytes) listings",
 ]
 
-KNOWN_REJ_MKDIR = ("rej-before-mkdir: rejects of the failing patch are written before the run creates directories, so the "
-                   "reject of a file in a directory that this very push creates is skipped ('Bypassing reject'); with "
-                   "several threads whether the directory already exists depends on another worker's save (P23)")
-
-
 def tracked(snap_str):
     """tracked part of a canonical result: no *.rej, nothing under .pc, no directories"""
     parts = [p for p in snap_str.split(" | ")[1:] if p.startswith("F ")]
@@ -72,27 +67,6 @@ def series_names(w):
     return names
 
 
-def classify_parallel(w, cfg, real, model):
-    """known finding P23: only reject files in directories created by this push differ"""
-    ra, ma = real.split(" | "), model.split(" | ")
-    if ra[0] != ma[0]:
-        return None
-    diff = [x for x in ra if x not in ma] + [x for x in ma if x not in ra]
-    if diff and all(x.startswith("F ") and x.split()[1].split("/")[-1].endswith(b".rej".hex()) for x in diff):
-        # the directory of each differing reject must be new in this push
-        initial_dirs = set()
-        for p in list(w["files"]) + list(w["dirs"]):
-            parts = p.split(b"/")
-            for i in range(1, len(parts)):
-                initial_dirs.add("/".join(c.hex() for c in parts[:i]))
-        for x in diff:
-            d = "/".join(x.split()[1].split("/")[:-1])
-            if d == "" or d in initial_dirs:
-                return None
-        return KNOWN_REJ_MKDIR
-    return None
-
-
 def compare(ctx, cases, label, classify=None, real_results=None):
     """cases: [(workspace, cfg)].  Runs model and binary, compares, records violations.
     Returns the list of canonical real results."""
@@ -128,8 +102,6 @@ def compare(ctx, cases, label, classify=None, real_results=None):
         kf = None
         if classify:
             kf = classify(w, cfg, r, l3gen.strip_err(m))
-        if kf is None and cfg["threads"] > 1:
-            kf = classify_parallel(w, cfg, r, l3gen.strip_err(m))
         if kf:
             ctx.known_finding(kf)
             continue
